@@ -713,8 +713,8 @@ pub proof fn lemma_turn_is_step(s: SubView, request: SubscriptionRequest, t: Sub
         SubscriptionRequest::GetInfo { responder } => { assert(s.out.remove_keys(Set::<AckId>::empty()) =~= s.out); assert(step(s, Ev::Ack(Set::<AckId>::empty()), t)); }
         SubscriptionRequest::PullMessages { max_count, responder } => {
             if s.deleted { assert(step(s, Ev::Pull(Seq::<PulledMessage>::empty()), t)); } else {
-                let (v, now) = choose|v: Seq<PulledMessage>, now: Instant|
-                    pulled_ok(v, s, pull_count(s.backlog.len() as int, max_count), now.v(), d) && t == pull_view(s, v);
+                let v = choose|v: Seq<PulledMessage>| pull_result_ok(v, s, max_count, d) && t == pull_view(s, v);
+                let now = choose|now: Instant| pulled_deadlines(v, now.v(), d);
                 assert(pulled_ok(v, s, pull_count(s.backlog.len() as int, max_count), now.v(), d));
                 assert(step(s, Ev::Pull(v), t));
             }
